@@ -52,7 +52,7 @@ def _case(draw, tier):
                 options=dict(dt_c=dt_c, dtmax_c=dt_c * ratio, adaptive=draw(st.integers(0, 4)) > 0,
                              adaptive_window=draw(st.integers(1, 10)), adaptive_time_step_multiplier=draw(gen.rf(0.05, 0.95)),
                              max_solve_retries=draw(st.integers(0, 10)), include_screening=scr, screening_tolerance=1e-3,
-                             field_units=fu, current_units=cu, solve_time=1.0, terminal_psi=draw(st.sampled_from([0.0, None]))),
+                             field_units=fu, current_units=cu, solve_time=1.0, terminal_psi=draw(st.sampled_from([0.0, 0.0, None, None, 1.0, [0.6, 0.3]]))),
                 ncalls=draw(st.integers(10, 40 if tier == "quick" else 80)),
                 # optionally the step counter and the clock restart once, as they do after a thermalisation stage
                 # (the harness's loop plays the part of the documented runner); 0 = a single stage
@@ -78,6 +78,10 @@ def check_case(spec):
             res.label("discarded: terminal without boundary sites")
             return res
         raise
+    pinned_value = opts.terminal_psi is not None and opts.terminal_psi != 0 and bool(dev.terminals)
+    pinned_sites = np.concatenate([t.site_indices for t in dev.terminal_info()]).astype(int) if pinned_value else None
+    if pinned_value:
+        res.label("terminals held at a non-zero value")
     adaptive = bool(opts.adaptive)
     W, M, R = int(opts.adaptive_window), float(opts.adaptive_time_step_multiplier), int(opts.max_solve_retries)
     dt_init, dt_max = float(opts.dt_init), float(opts.dt_max)
@@ -192,8 +196,14 @@ def check_case(spec):
                 x = TDGLSolver.solve_for_psi_squared(psi=psi_before, abs_sq_psi=old_sq, mu=vals["mu"], epsilon=solver.epsilon,
                                                      gamma=solver.gamma, u=solver.u, dt=dt_s,
                                                      psi_laplacian=solver.operators.psi_laplacian)[1]
-                deltas.append(float(np.max(np.abs(x - old_sq))))
                 derr = 0.0
+                if pinned_value:
+                    # sites held at a non-zero terminal value do not change: the change of |psi|^2 there is that of the
+                    # state returned (zero up to one rounding of |v|^2), not that of the intermediate Euler result
+                    x = np.array(x)
+                    x[pinned_sites] = new_sq[pinned_sites]
+                    derr = 1e-15
+                deltas.append(float(np.max(np.abs(x - old_sq))))
             else:
                 # |psi'|^2 recomputed from psi' differs from the reported one by rounding amplified by gamma^2
                 deltas.append(float(np.max(np.abs(new_sq - old_sq))))
